@@ -47,6 +47,7 @@ def gen_probe(rng, tier):
         "included": [],
         "excluded": [],
         "qgen": rng.choice([0, 1, 2]),
+        "idents": None,
     }
 
 
